@@ -28,6 +28,8 @@ func runC14(c *core.Ctx) {
 	c.Rule("R3", "k-way merge: an ended sequence never beats a live one holding the end marker's value (2^32-1 is a token)", 1)
 	c.Rule("R4", "arithmetic on 32-bit keys/tokens in lookup and range code is confined to the reviewed sites; guarded sites keep their guard", 7)
 	c.Rule("R5", "token lists fed to the k-way merge are sorted by both producers", 2)
+	c.Rule("R6", "the token→instance map shared between a ring and its subrings is immutable (shared with C13.R7)", 1)
+	c.Rule("R7", "no selection loop over tokens starts from the extreme value of the domain as 'nothing selected'", 1)
 	c.Rule("R2", "a pending range bound recorded with its flag is consumed on every path to a successful return", 2)
 	pkg := c.Prog.Pkg("ring")
 	if pkg == nil {
@@ -69,6 +71,103 @@ func runC14(c *core.Ctx) {
 	c14MergeMarker(c, pkg)
 	c14Arithmetic(c, pkg)
 	c14SortedInputs(c, pkg)
+	c13ImmutableIndex(c, pkg, "R6")
+	c14Extremum(c, pkg)
+}
+
+// c14Extremum (R7): a selection loop over 32-bit tokens/keys must not use the largest (or smallest)
+// value of the domain as "nothing selected yet": `lowest := MaxUint32; if x < lowest { lowest = x; idx = i }`
+// never selects an element equal to 2^32-1. The rule flags a uint32 local that is initialised with the
+// extreme constant of the comparison direction and then updated under a strict comparison whose branch
+// also records something else (an index, a flag); a pure running minimum/maximum is harmless and is
+// accepted.
+func c14Extremum(c *core.Ctx, pkg *packages.Package) {
+	n := 0
+	var all []*an.Fn
+	for _, top := range an.Funcs(pkg) {
+		all = append(all, top)
+		all = append(all, top.AllLits()...)
+	}
+	var bad []string
+	var badPos token.Pos
+	for _, fn := range all {
+		if strings.HasSuffix(c.Prog.Fset.Position(fn.Pos()).Filename, ".pb.go") {
+			continue
+		}
+		fn.InspectShallow(func(nd ast.Node) bool {
+			is, ok := nd.(*ast.IfStmt)
+			if !ok {
+				return true
+			}
+			// conjuncts of the condition
+			for _, cj := range conjuncts(is.Cond) {
+				be, ok := an.Unparen(cj).(*ast.BinaryExpr)
+				if !ok || (be.Op != token.LSS && be.Op != token.GTR) {
+					continue
+				}
+				// normalise to  data OP u
+				for _, side := range []struct {
+					u  ast.Expr
+					op token.Token
+				}{{be.Y, be.Op}, {be.X, flipCmp(be.Op)}} {
+					v, ok := fn.ObjOf(side.u).(*types.Var)
+					if !ok || v.IsField() {
+						continue
+					}
+					b, ok := v.Type().Underlying().(*types.Basic)
+					if !ok || b.Kind() != types.Uint32 {
+						continue
+					}
+					n++
+					// is u assigned in the branch, together with something else?
+					assignsU, others := false, 0
+					ast.Inspect(is.Body, func(m ast.Node) bool {
+						if as, ok := m.(*ast.AssignStmt); ok {
+							for _, l := range as.Lhs {
+								if fn.ObjOf(l) == v {
+									assignsU = true
+								} else {
+									others++
+								}
+							}
+						}
+						return true
+					})
+					if !assignsU || others == 0 {
+						continue
+					}
+					// initial value of u: the extreme of the direction?
+					extreme := false
+					for _, d := range fn.DefSites(v) {
+						cn := d.Canon
+						if side.op == token.LSS && (strings.Contains(cn, "MaxUint32") || cn == "4294967295") {
+							extreme = true
+						}
+						if side.op == token.GTR && (cn == "0" || cn == "zero" || d.Zero) {
+							extreme = true
+						}
+					}
+					if extreme {
+						bad = append(bad, fmt.Sprintf("%s: %s is initialised with the extreme value and replaced only under a strict '%s', while the branch also records %d other value(s): an element equal to the extreme is never selected", fn.Name, v.Name(), side.op, others))
+						badPos = is.Pos()
+					}
+				}
+			}
+			return true
+		})
+	}
+	if len(bad) > 0 {
+		c.Viol("R7", "selection-sentinel", badPos, strings.Join(bad, "; "))
+		return
+	}
+	c.Hold("R7", "selection-sentinel", pkg.Syntax[0].Pos(), fmt.Sprintf("%d strict comparisons against uint32 locals examined in package ring: none is a selection that starts from the extreme value of the domain", n), n)
+}
+
+func flipCmp(op token.Token) token.Token {
+	if op == token.LSS {
+		return token.GTR
+	}
+	return token.LSS
 }
 
 // c14MergeMarker (R3): the token lists of a ring are merged by loser.Tree with an end-of-sequence marker
